@@ -15,6 +15,7 @@ LEVEL_TEXT = ("Coq theorems for ensembles of every size and all rational members
               "crps_for_ensemble (method ecdf) is the Riemann integral of (F_ens - 1{y<=t})^2 (Coquelicot is_RInt, bridged with Q2R), fair differs "
               "only in the spread normalisation, total = under + over - spread, lower tail + interval + upper tail = unweighted CRPS (both methods, "
               "per-case thresholds), the threshold integral of the ensemble Brier score (with and without fair correction) is the matching CRPS, "
+              "an infinite member of the ensemble Brier score is a valid member beyond the threshold, "
               "invariance under permutation / translation / |a|-scaling, non-negativity and zero-iff. The elementwise expressions of the code are "
               "regenerated from source on every run; the reduction skeleton is a hand model tied by a correspondence check. Proof is the right level: "
               "the relations hold between different public functions and hinge on ties (member = obs = threshold) no sample is guaranteed to hit.")
@@ -22,7 +23,7 @@ LEVEL_NOTE = ("trusted: custom translator site tools/sites/c06.py (insists on th
               "NaN-skipping reductions / broadcasting / dims rule (validated by correspondence), extraction, harness; integral theorems use the "
               "standard-library Reals axioms reported by Print Assumptions; binary64 rounding is not modelled (tolerance 1e-9)")
 TECHNIQUE = "Coq proof (Q algebra axiom-free, Coquelicot is_RInt for the integral statements) + regenerated kernels + extracted-model correspondence"
-SITES = ["C06.crps", "C06.chain"]
+SITES = ["C06.crps", "C06.chain", "C06.brier"]
 RULE = ("(a) per-case sweep: every ensemble of 1..3 slots over the grid {0,1/2,1,2,NaN} x every observation of that grid x both methods "
         "(exhaustive), plus random ensembles of 1..6 members on the grid k/2, |k|<=6, with NaN members (p in {0,.2,.5}) and NaN observations; "
         "(b) full-function cases: 1-2 data dims of size 1-3 plus a member dim of size 1..6, obs / weights / threshold arrays on random subsets of "
@@ -35,18 +36,45 @@ RULE = ("(a) per-case sweep: every ensemble of 1..3 slots over the grid {0,1/2,1
         "values, sometimes next to the ends of the dtype's range; 1..9, 12 or 51 members) and the observation in the same or another dtype, "
         "scored by crps_for_ensemble, the tail / interval variants (fractional thresholds) and brier_score_for_ensemble (operators ge, gt, le, "
         "lt; thresholds at k+1/2, on a member, a member +- 2^-30, below / above all data) against exact rational oracles and against the same "
-        "call on the float64 copy of the values. A case is distinct by the hash of its full description and non-trivial when the "
+        "call on the float64 copy of the values; "
+        "(e) infinite values as valid data: every ensemble of 1..3 slots over {0, 1, NaN, +inf, -inf} x every observation of that set with at "
+        "least one infinity (exhaustive) and random ensembles of 1..6 members with one / some / only infinite members (one sign or both), NaN "
+        "members, finite / infinite / missing observations: every cell of brier_score_for_ensemble (four operators, with / without fair "
+        "correction, thresholds on / between / beside the finite values and at -inf / +inf) against the exact (i/m - 1{obs in event})^2 oracle "
+        "with i and m counted over the non-missing members, its threshold integral over a finite [a, b] = interval_tw_crps_for_ensemble(a, b) = "
+        "exact CRPS of the clipped values, crps_for_ensemble / tail / interval with components against the kernel form on the extended reals "
+        "wherever that is not inf - inf, infinite thresholds as the ends of the real line (interval(-inf, +inf) = plain, interval(-inf, b) = "
+        "lower tail, ...), and infinite values in the full-function cases of (b); "
+        "(f) Dataset inputs: 2-3 variables over shared coordinates whose NaN positions differ by construction (missing observation / all-NaN "
+        "ensemble / single valid member / scattered NaN members / complete, a different class per variable; dims stored in a different order per "
+        "variable; sometimes one shared DataArray observation), through crps_for_ensemble, tail / interval / generic chaining and "
+        "brier_score_for_ensemble with every option: each variable of the result = the same call on that variable alone, parts add up per variable. "
+        "A case is distinct by the hash of its full description and non-trivial when the "
         "implementation returns at least one finite value.")
-ASSUMPTIONS = ["thresholds, members and observations are finite rationals or NaN (no +-inf inputs)",
+ASSUMPTIONS = ["the Coq statements are for finite rational members, observations and thresholds (or NaN = missing); +-inf members / observations / "
+               "thresholds are covered by the model correspondence (Xval computes with infinities as IEEE does) and by tested predicates against exact "
+               "extended-real oracles; where the kernel form is inf - inf (two members infinitely far apart, or a member equal to an infinite observation) "
+               "crps_for_ensemble returns NaN (the integral is +inf or finite there): not compared, counted in the evidence (inf:not-compared...)",
+               "Dataset inputs are not modelled in Coq: that each variable is scored as it is alone as a DataArray is a tested predicate",
                "the Coq statement about brier_score_for_ensemble is for operator.ge (at interval midpoints >= and > coincide); the other operators "
                "and thresholds on a member are compared with an exact rational oracle only",
                "storage dtypes are not modelled in Coq (the model computes with rationals): independence of the storage dtype is a tested predicate"]
-TRUSTED = ["tools/sites/c06.py: custom translator site; it checks the statement skeleton of crps_for_ensemble / tw_* and translates only the "
-           "elementwise expressions; the NaN-skipping sum/mean/count semantics it assumes are validated by the correspondence check"]
+TRUSTED = ["tools/sites/c06.py: custom translator sites; they check the statement skeleton of crps_for_ensemble / tw_* / brier_score_for_ensemble and "
+           "translate only the elementwise expressions; the NaN-skipping sum/mean/count semantics they assume are validated by the correspondence check"]
+
+# counters every complete run must have incremented (harness self-check: a predicate family that silently never runs is reported)
+EXPECT_COUNTS = ["sweep", "random-case", "tw-case", "tw-sweep", "invariance", "brier-integral", "brier-weights", "chain-kwargs", "size-case", "size-tw", "size-brier",
+                 "size:members=51", "storage", "storage:fcst=uint8", "storage:fcst=bool", "storage:fcst=float32", "storage:members=51",
+                 "inf-brier-cells", "inf-brier-integral", "inf-crps", "inf-thresholds", "inf:member=+inf", "inf:member=-inf", "inf:member=+-inf", "inf:obs=inf",
+                 "dataset:plain", "dataset:tail", "dataset:interval", "dataset:chain", "dataset:brier", "dataset:components", "dataset:parts-add-up",
+                 "dataset:nan-class=missing-obs", "dataset:nan-class=all-nan-ensemble", "dataset:nan-class=single-member",
+                 "full:plain", "full:tail", "full:interval", "full:chain", "full:chain-kwargs", "full:components", "full:weights", "full:infinite-values",
+                 "full:err:ValueError", "additivity:full", "reduction", "guards", "corpus"]
 
 GRID = [Fraction(k, 2) for k in range(-6, 7)]
 SMALL = [Fraction(0), Fraction(1, 2), Fraction(1), Fraction(2)]
 NAN = float("nan")
+INF = float("inf")
 COMPONENTS = ["total", "underforecast_penalty", "overforecast_penalty", "spread"]
 
 
@@ -57,6 +85,10 @@ def P():
 
 def isnan(v):
     return isinstance(v, float) and v != v
+
+
+def isinf(v):
+    return isinstance(v, float) and (v == INF or v == -INF)
 
 
 def fl(v):
@@ -112,7 +144,17 @@ def batch_arrays(cases):
 def same(a, b, tol=1e-9):
     a = np.asarray(a, dtype=float)
     b = np.asarray(b, dtype=float)
-    return (np.isnan(a) & np.isnan(b)) | (np.abs(a - b) <= tol * np.maximum(1.0, np.abs(b)))
+    with np.errstate(invalid="ignore"):
+        return (np.isnan(a) & np.isnan(b)) | (a == b) | (np.abs(a - b) <= tol * np.maximum(1.0, np.abs(b)))      # a == b: equal infinities
+
+
+def ct_values(ctx, r, desc):
+    """(case, threshold) values of a per-case brier_score_for_ensemble result; a result with other dimensions is a violation (None)"""
+    if not isinstance(r, xr.DataArray) or set(r.dims) != {"case", "threshold"}:
+        ctx.violation("brier_score_for_ensemble(preserve_dims='all') of fcst[case, member], obs[case] does not have the dimensions (case, threshold)", desc,
+                      ["case", "threshold"], [str(d) for d in getattr(r, "dims", [type(r).__name__])])
+        return None
+    return r.transpose("case", "threshold").values
 
 
 # ---------------------------------------------------------------------------------------------------
@@ -244,7 +286,9 @@ def brier_level(ctx, cases, tag):
     wid = np.array([float(b - a) for a, b in zip(pts, pts[1:])])
     for fair in (False, True):
         bs = p.brier_score_for_ensemble(fc, ob, "m", [float(t) for t in mids], fair_correction=fair, preserve_dims="all")
-        bs = bs.transpose("case", "threshold").values
+        bs = ct_values(ctx, bs, {"fn": "brier_score_for_ensemble integral", "members": cases[0][0], "obs": cases[0][1], "fair": fair, "breakpoints": pts})
+        if bs is None:
+            continue
         integ = (bs * wid).sum(axis=1)
         ref = p.crps_for_ensemble(fc, ob, "m", method="fair" if fair else "ecdf", preserve_dims="all").values
         for i, (xs, y) in enumerate(cases):
@@ -265,7 +309,10 @@ def brier_level(ctx, cases, tag):
     # thresholds equal to members / obs (ties), model only vs implementation
     tie_t = [float(t) for t in pts]
     for fair in ((False, True) if has_model(ctx) else ()):
-        bs = p.brier_score_for_ensemble(fc, ob, "m", tie_t, fair_correction=fair, preserve_dims="all").transpose("case", "threshold").values
+        bs = ct_values(ctx, p.brier_score_for_ensemble(fc, ob, "m", tie_t, fair_correction=fair, preserve_dims="all"),
+                       {"fn": "brier_score_for_ensemble integral", "members": cases[0][0], "obs": cases[0][1], "fair": fair, "breakpoints": pts})
+        if bs is None:
+            continue
         for i in ctx.rng.sample(range(len(cases)), min(len(cases), 12)):
             xs, y = cases[i]
             j = ctx.rng.randrange(len(pts))
@@ -378,8 +425,10 @@ def brier_weights_level(ctx, cases, tag):
         if any(x[0] != "ok" for x in (r1, rw, rm, cw)):
             ctx.violation("brier_score_for_ensemble / crps_for_ensemble with weights fails", base, "values", [x[1] if x[0] == "err" else "ok" for x in (r1, rw, rm, cw)])
             continue
-        a1 = r1[1].transpose("case", "threshold").values
-        aw = rw[1].transpose("case", "threshold").values
+        a1 = ct_values(ctx, r1[1], dict(base, members=cases[0][0], obs=cases[0][1]))
+        aw = ct_values(ctx, rw[1], dict(base, members=cases[0][0], obs=cases[0][1], weight=ws[0]))
+        if a1 is None or aw is None:
+            continue
         am = rm[1].values
         cv = cw[1].values
         for i, (xs, y) in enumerate(cases):
@@ -623,8 +672,10 @@ def dtype_level(ctx, cases, fdt, odt, tag):
                 if r[0] != "ok":
                     ctx.violation("brier_score_for_ensemble fails for this storage dtype", dict(d0, members=cases[0][0], obs=cases[0][1], thresholds=ts), "values", r[1])
                     continue
-                bs = r[1].transpose("case", "threshold").values
-                b64 = r64[1].transpose("case", "threshold").values if r64[0] == "ok" else None
+                bs = ct_values(ctx, r[1], dict(d0, members=cases[0][0], obs=cases[0][1], thresholds=ts))
+                b64 = ct_values(ctx, r64[1], dict(d0, members=cases[0][0], obs=cases[0][1], thresholds=ts, fcst_dtype="float64", obs_dtype="float64")) if r64[0] == "ok" else None
+                if bs is None:
+                    continue
                 if list(r[1]["threshold"].values) != tf:
                     ctx.violation("brier_score_for_ensemble: the threshold coordinate of the result is not the thresholds given", dict(d0, thresholds=ts), tf,
                                   [float(v) for v in r[1]["threshold"].values])
@@ -655,6 +706,352 @@ def dtype_level(ctx, cases, fdt, odt, tag):
     ctx.count(tag + ":fcst=" + fdt)
     ctx.count(tag + ":members=" + str(fc.sizes["m"]))
     ctx.count(tag, n)
+
+
+# ---------------------------------------------------------------------------------------------------
+# infinite values: +inf / -inf members and observations are valid data (a member above / below every threshold), not missing
+# ---------------------------------------------------------------------------------------------------
+def dist(a, b):
+    """|a - b| on the extended reals; two equal infinities are the same point"""
+    if a == b:
+        return Fraction(0)
+    if isinf(a) or isinf(b):
+        return INF
+    return abs(a - b)
+
+
+def kernel_form_ext(valid, y, meth):
+    """the kernel form on the extended reals.  None outside the domain on which it is defined without inf - inf and on which the
+    implementation agrees with the integral of (F_ens - H_obs)^2: two members infinitely far apart (infinite spread AND infinite
+    |x - y| term), or a member equal to an infinite observation (the code's |inf - inf| is NaN, not 0)"""
+    if not valid or isnan(y):
+        return NAN
+    m = len(valid)
+    if any(dist(a, b) == INF for a in valid for b in valid) or (isinf(y) and any(x == y for x in valid)):
+        return None
+    if meth == "fair" and m == 1:
+        return NAN
+    S = [dist(x, y) for x in valid]
+    if INF in S:
+        return INF
+    Pp = sum((dist(a, b) for a in valid for b in valid), Fraction(0))
+    return sum(S, Fraction(0)) / m - Pp / (2 * (m * m if meth == "ecdf" else m * (m - 1)))
+
+
+def ecdf_integral_ext(valid, y):
+    """integral over the real line of (F_ens - 1{y <= t})^2, members / observation on the extended reals (exact; +inf when a piece
+    of infinite length carries a non-zero integrand)"""
+    if not valid or isnan(y):
+        return NAN
+    m = len(valid)
+    left = (Fraction(sum(1 for x in valid if x == -INF), m) - (1 if y == -INF else 0)) ** 2          # t -> -inf
+    right = (Fraction(sum(1 for x in valid if x != INF), m) - (0 if y == INF else 1)) ** 2          # t -> +inf
+    if left != 0 or right != 0:
+        return INF
+    pts = sorted({v for v in valid + [y] if not isinf(v)})
+    tot = Fraction(0)
+    for a, b in zip(pts, pts[1:]):
+        tot += (b - a) * (Fraction(sum(1 for x in valid if x <= a), m) - (1 if y <= a else 0)) ** 2
+    return tot
+
+
+def chain_ext(v, lo, hi):
+    """clip to [lo, hi] (None = unbounded) on the extended reals; NaN stays"""
+    if isnan(v):
+        return v
+    if lo is not None and v < lo:
+        v = lo
+    if hi is not None and v > hi:
+        v = hi
+    return v
+
+
+def rand_inf_case(rng, maxm=6):
+    """an ensemble with at least one infinite member or an infinite observation; few distinct finite values (ties)"""
+    m = rng.randint(1, maxm)
+    pool = rng.sample(GRID, rng.randint(1, 3))
+    pn = rng.choice([0.0, 0.0, 0.25])
+    flavour = rng.choice(["one", "one", "some", "some", "all", "obs"])
+    sign = rng.choice([INF, -INF, None])        # None: both signs
+    inf = lambda: sign if sign is not None else rng.choice([INF, -INF])
+    xs = [NAN if rng.random() < pn else rng.choice(pool) for _ in range(m)]
+    if flavour == "one":
+        xs[rng.randrange(m)] = inf()
+    elif flavour == "some":
+        xs = [inf() if rng.random() < 0.4 else x for x in xs]
+        xs[rng.randrange(m)] = inf()
+    elif flavour == "all":
+        v = inf()
+        xs = [x if isnan(x) else v for x in xs]
+        xs[rng.randrange(m)] = v
+    r = rng.random()
+    if flavour == "obs" or r < 0.15:
+        y = rng.choice([INF, -INF])
+    elif r < 0.2:
+        y = NAN
+    else:
+        y = rng.choice(pool) if rng.random() < 0.5 else rng.choice(GRID)
+    return xs, y
+
+
+def inf_sweep_cases(maxm=3):
+    vals = [Fraction(0), Fraction(1), NAN, INF, -INF]
+    return [(list(xs), y) for m in range(1, maxm + 1) for xs in itertools.product(vals, repeat=m) for y in vals
+            if any(isinf(v) for v in list(xs) + [y])]
+
+
+def inf_brier_level(ctx, cases, tag, inf_thresholds=True, fixed=None):
+    """brier_score_for_ensemble with infinite members / observations (/ thresholds): every cell is (i/m - 1{obs in event})^2
+    [- i(m-i)/(m^2(m-1))] with i and m counted over the same non-missing members, an infinite member being a valid one (four
+    operators); its threshold integral over [a, b] is interval_tw_crps_for_ensemble(a, b) = exact CRPS of the clipped values"""
+    import operator
+    p = P()
+    rng = ctx.rng
+    cases = pad(cases)
+    fc, ob = batch_arrays(cases)
+    fin = sorted({v for xs, y in cases for v in xs + [y] if not isnan(v) and not isinf(v)}) or [Fraction(0)]
+    mids = [(a + b) / 2 for a, b in zip(fin, fin[1:])]
+    ts = sorted(set(mids + fin + [fin[0] - Fraction(3, 2), fin[-1] + Fraction(1, 2)] + [t for t in (fixed or {}).get("ts", []) if not isinf(t)]))
+    if inf_thresholds:
+        ts = [-INF] + ts + [INF]
+    tf = [float(t) for t in ts]
+    order = sorted(range(len(ts)), key=lambda j: isinf(ts[j]))      # finite thresholds first: the plainest failing input is reported
+    for opn in OPS:
+        for fair in (False, True):
+            r = core.call_impl(p.brier_score_for_ensemble, fc, ob, "m", tf, fair_correction=fair, preserve_dims="all",
+                               event_threshold_operator=getattr(operator, opn))
+            d0 = {"fn": "brier_score_for_ensemble[inf]", "operator": opn, "fair": fair}
+            if r[0] != "ok":
+                ctx.violation("brier_score_for_ensemble fails for infinite members / observations", dict(d0, members=cases[0][0], obs=cases[0][1], thresholds=ts),
+                              "values", r[1])
+                continue
+            bs = ct_values(ctx, r[1], dict(d0, members=cases[0][0], obs=cases[0][1], thresholds=ts))
+            if bs is None:
+                continue
+            for i, (xs, y) in enumerate(cases):
+                ctx.case((tag, opn, fair, tuple(map(str, xs)), str(y), len(ts)), nontrivial=any(not isnan(x) for x in xs) and not isnan(y))
+                for j in order:
+                    t = ts[j]
+                    want = brier_exact_op(xs, y, t, fair, opn)
+                    if not core.close(bs[i, j], want):
+                        ctx.violation("ensemble Brier score with an infinite member / observation differs from (i/m - 1{obs in event})^2 [- fair correction], "
+                                      "i and m counted over the non-missing members (an infinite member is not missing)",
+                                      dict(d0, members=xs, obs=y, threshold=t), str(want), float(bs[i, j]))
+                        break
+            if opn == "ge" and has_model(ctx):
+                for i in rng.sample(range(len(cases)), min(len(cases), 10)):
+                    xs, y = cases[i]
+                    j = rng.randrange(len(ts))
+                    mv = core.dec_num(ctx.model("c06_brier_cell", enc_list([enc_nums(xs), enc_num(y), enc_num(ts[j]), enc_bool(fair)])))
+                    if not core.close(bs[i, j], mv):
+                        ctx.tie_fail("brier_score_for_ensemble cell (infinite values) vs model", {"members": xs, "obs": y, "threshold": ts[j], "fair": fair},
+                                     float(bs[i, j]), str(mv))
+    ctx.count("inf-brier-cells", len(cases))
+    # ---- threshold integral over a finite range [a, b] = interval twCRPS of that range = exact CRPS of the clipped values ----
+    ends = sorted(set(GRID + [fin[0] - 1, fin[-1] + 1]))
+    a = rng.choice([fin[0] - 1, fin[0] - 1, rng.choice(ends[:-1])])
+    b = rng.choice([fin[-1] + 1, fin[-1] + 1] + [e for e in ends if e > a])
+    if b <= a:
+        b = a + 1
+    if fixed and "ab" in fixed:
+        a, b = fixed["ab"]
+    brk = sorted({a, b} | {v for v in fin if a < v < b})
+    bm = [(u + v) / 2 for u, v in zip(brk, brk[1:])]
+    wid = [v - u for u, v in zip(brk, brk[1:])]
+    for fair in (False, True):
+        meth = "fair" if fair else "ecdf"
+        opn = rng.choice(OPS)
+        r = core.call_impl(p.brier_score_for_ensemble, fc, ob, "m", [float(t) for t in bm], fair_correction=fair, preserve_dims="all",
+                           event_threshold_operator=getattr(operator, opn))
+        tw = core.call_impl(p.interval_tw_crps_for_ensemble, fc, ob, "m", float(a), float(b), method=meth, preserve_dims="all")
+        d0 = {"fn": "brier_score_for_ensemble integral[inf]", "operator": opn, "fair": fair, "lower_threshold": a, "upper_threshold": b}
+        if r[0] != "ok" or tw[0] != "ok":
+            ctx.violation("brier_score_for_ensemble / interval_tw_crps_for_ensemble fails for infinite members / observations",
+                          dict(d0, members=cases[0][0], obs=cases[0][1]), "values", [r[1] if r[0] != "ok" else "ok", tw[1] if tw[0] != "ok" else "ok"])
+            continue
+        bs = ct_values(ctx, r[1], dict(d0, members=cases[0][0], obs=cases[0][1]))
+        if bs is None:
+            continue
+        tv = tw[1].values
+        for i, (xs, y) in enumerate(cases):
+            desc = dict(d0, members=xs, obs=y, breakpoints=brk)
+            want = clip_exact(xs, y, a, b, meth)
+            nvalid = sum(1 for x in xs if not isnan(x))
+            ctx.case((tag, "integral", fair, tuple(map(str, xs)), str(y), str(a), str(b)), nontrivial=not isnan(want))
+            if not core.close(tv[i], want):
+                ctx.violation("interval_tw_crps_for_ensemble with an infinite member / observation differs from the exact CRPS of the values clipped to the interval",
+                              desc, str(want), float(tv[i]))
+                continue
+            if fair and nvalid == 1:
+                continue      # fair CRPS of one member is NaN by its normalisation; the Brier correction is defined as 0
+            integ = sum(float(w) * bs[i, j] for j, w in enumerate(wid))
+            if not core.close(integ, want):
+                ctx.violation("threshold integral over [a, b] of the ensemble Brier score with an infinite member / observation != interval twCRPS on [a, b]",
+                              desc, str(want), float(integ))
+    ctx.count("inf-brier-integral", len(cases))
+
+
+def inf_crps_level(ctx, cases, tag, fixed=None):
+    """crps_for_ensemble (components) and the tail / interval variants with infinite members / observations against the kernel
+    form on the extended reals, wherever that is defined without inf - inf (there the unchanged code agrees with the integral of
+    (F_ens - H_obs)^2); elsewhere the case is only counted (evidence: inf:not-compared...) and tied to the model"""
+    p = P()
+    rng = ctx.rng
+    cases = pad(cases)
+    fc, ob = batch_arrays(cases)
+    n = len(cases)
+    for meth in ("ecdf", "fair"):
+        for kind in ("scalar", "array"):
+            if kind == "scalar":
+                lo, hi = sorted(rng.sample(GRID, 2)) if fixed is None else fixed
+                los, his = [lo] * n, [hi] * n
+                tlo, thi = float(lo), float(hi)
+            else:
+                los, his = [], []
+                for xs, y in cases:
+                    if fixed is not None:
+                        los.append(fixed[0])
+                        his.append(fixed[1])
+                        continue
+                    pool = [v for v in xs + [y] if not isnan(v) and not isinf(v)] or GRID
+                    a = rng.choice(pool) if rng.random() < 0.6 else rng.choice(GRID)
+                    los.append(a)
+                    his.append(rng.choice([g for g in GRID + [Fraction(7)] if g > a]))
+                tlo = xr.DataArray([float(v) for v in los], dims=["case"])
+                thi = xr.DataArray([float(v) for v in his], dims=["case"])
+            calls = [("crps_for_ensemble", lambda: p.crps_for_ensemble(fc, ob, "m", method=meth, preserve_dims="all", include_components=True), lambda i: (None, None)),
+                     ("tail_tw_crps_for_ensemble(lower)", lambda: p.tail_tw_crps_for_ensemble(fc, ob, "m", tlo, tail="lower", method=meth, preserve_dims="all",
+                                                                                            include_components=True), lambda i: (None, los[i])),
+                     ("interval_tw_crps_for_ensemble", lambda: p.interval_tw_crps_for_ensemble(fc, ob, "m", tlo, thi, method=meth, preserve_dims="all",
+                                                                                                include_components=True), lambda i: (los[i], his[i])),
+                     ("tail_tw_crps_for_ensemble(upper)", lambda: p.tail_tw_crps_for_ensemble(fc, ob, "m", thi, tail="upper", method=meth, preserve_dims="all",
+                                                                                            include_components=True), lambda i: (his[i], None))]
+            got4 = {}
+            for name, f, rng_of in calls:
+                if name == "crps_for_ensemble" and kind == "array":
+                    got4[name] = got4_plain
+                    continue
+                r = core.call_impl(f)
+                if r[0] != "ok":
+                    ctx.violation(name + " fails for infinite members / observations", {"fn": name + "[inf]", "members": cases[0][0], "obs": cases[0][1], "method": meth},
+                                  "values", r[1])
+                    continue
+                rv = {c: r[1].sel(component=c).values for c in COMPONENTS}
+                got4[name] = rv["total"]
+                if name == "crps_for_ensemble":
+                    got4_plain = rv["total"]
+                for i, (xs, y) in enumerate(cases):
+                    a, b = rng_of(i)
+                    desc = {"fn": name + "[inf]", "members": xs, "obs": y, "method": meth, "lower_threshold": los[i], "upper_threshold": his[i], "thresholds": kind}
+                    valid = [chain_ext(x, a, b) for x in xs if not isnan(x)]
+                    yy = chain_ext(y, a, b)
+                    want = kernel_form_ext(valid, yy, meth)
+                    got = [float(rv[c][i]) for c in COMPONENTS]
+                    ctx.case((tag, name, kind, meth, tuple(map(str, xs)), str(y), str(a), str(b)), nontrivial=want is not None and not isnan(want))
+                    if want is None:
+                        truth = ecdf_integral_ext(valid, yy)
+                        ctx.count("inf:not-compared(inf-inf):impl=%s,integral=%s" % ("nan" if np.isnan(got[0]) else "inf" if np.isinf(got[0]) else "finite",
+                                                                                      "inf" if truth == INF else "finite"))
+                        continue
+                    if not core.close(got[0], want):
+                        ctx.violation(name + " with infinite members / observations differs from the kernel form of the (chained) values on the extended reals",
+                                      desc, str(want), got[0])
+                        continue
+                    if meth == "ecdf" and not core.close(got[0], ecdf_integral_ext(valid, yy)):
+                        ctx.violation(name + "(method=ecdf) with infinite members / observations is not the integral of (F_ens - H_obs)^2", desc,
+                                      str(ecdf_integral_ext(valid, yy)), got[0])
+                    if valid and not isnan(yy):
+                        mm = len(valid)
+                        du = sum((d for d in (dist(x, yy) for x in valid if x < yy)), Fraction(0))
+                        do = sum((d for d in (dist(x, yy) for x in valid if x > yy)), Fraction(0))
+                        du, do = (du if du == INF else du / mm), (do if do == INF else do / mm)
+                        if not core.close(got[1], du) or not core.close(got[2], do):
+                            ctx.violation("underforecast / overforecast penalty with infinite values differs from its documented formula", desc,
+                                          [str(du), str(do)], got[1:3])
+                        if not isnan(want):
+                            sp = du + do - want if want != INF else None
+                            if sp is not None and not core.close(got[3], sp):
+                                ctx.violation("spread component with infinite values: total != underforecast + overforecast - spread", desc, str(sp), got[3])
+                            if want == INF and not (np.isfinite(got[3]) and got[1] + got[2] - got[3] == INF):
+                                ctx.violation("infinite total but underforecast + overforecast - spread is not +inf", desc, "inf", got[1:])
+            # tie with the model on every case (IEEE semantics of the model: inf - inf = NaN, NaN-skipping reductions)
+            if has_model(ctx) and len(got4) == 4:
+                for i in rng.sample(range(n), min(n, 25)):
+                    xs, y = cases[i]
+                    m4 = core.dec_nums(ctx.model("c06_tw_case", enc_list([enc_nums(xs), enc_num(y), enc_num(los[i]), enc_num(his[i]), enc_str(meth)])))
+                    g4 = [got4["tail_tw_crps_for_ensemble(lower)"][i], got4["interval_tw_crps_for_ensemble"][i], got4["tail_tw_crps_for_ensemble(upper)"][i],
+                          got4["crps_for_ensemble"][i]]
+                    if not core.close_list(g4, m4):
+                        ctx.tie_fail("tail / interval / tail / plain (one case, infinite values) vs model",
+                                     {"members": xs, "obs": y, "lower_threshold": los[i], "upper_threshold": his[i], "method": meth},
+                                     [float(v) for v in g4], [str(v) for v in m4])
+    ctx.count("inf-crps", n)
+    for xs, y in cases:
+        if any(isinf(x) for x in xs):
+            ctx.count("inf:member=" + ("+-inf" if INF in xs and -INF in xs else "+inf" if INF in xs else "-inf"))
+        if isinf(y):
+            ctx.count("inf:obs=inf")
+
+
+def inf_threshold_level(ctx, cases, tag, fixed=None):
+    """infinite thresholds are end points of the real line: clipping at -inf / +inf clips nothing.  interval(-inf, +inf) = upper
+    tail at -inf = lower tail at +inf = crps_for_ensemble; interval(-inf, b) = lower tail at b; interval(a, +inf) = upper tail at a
+    (all four components, both methods; scalar and per-case thresholds)"""
+    p = P()
+    rng = ctx.rng
+    cases = pad(cases)
+    fc, ob = batch_arrays(cases)
+    n = len(cases)
+    for meth in ("ecdf", "fair"):
+        kw = dict(method=meth, preserve_dims="all", include_components=True)
+        ts = [rng.choice(GRID) if fixed is None else fixed[0] for _ in cases]
+        arr = rng.random() < 0.5 if fixed is None else fixed[1] == "array"
+        t = xr.DataArray([float(v) for v in ts], dims=["case"]) if arr else float(ts[0])
+        pinf = xr.DataArray([INF] * n, dims=["case"]) if arr else INF
+        ninf = xr.DataArray([-INF] * n, dims=["case"]) if arr else -INF
+        calls = {"plain": lambda: p.crps_for_ensemble(fc, ob, "m", **kw),
+                 "interval(-inf,+inf)": lambda: p.interval_tw_crps_for_ensemble(fc, ob, "m", ninf, pinf, **kw),
+                 "upper(-inf)": lambda: p.tail_tw_crps_for_ensemble(fc, ob, "m", ninf, tail="upper", **kw),
+                 "lower(+inf)": lambda: p.tail_tw_crps_for_ensemble(fc, ob, "m", pinf, tail="lower", **kw),
+                 "interval(-inf,t)": lambda: p.interval_tw_crps_for_ensemble(fc, ob, "m", ninf, t, **kw),
+                 "lower(t)": lambda: p.tail_tw_crps_for_ensemble(fc, ob, "m", t, tail="lower", **kw),
+                 "interval(t,+inf)": lambda: p.interval_tw_crps_for_ensemble(fc, ob, "m", t, pinf, **kw),
+                 "upper(t)": lambda: p.tail_tw_crps_for_ensemble(fc, ob, "m", t, tail="upper", **kw)}
+        r = {k: core.call_impl(f) for k, f in calls.items()}
+        bad = [k for k, v in r.items() if v[0] != "ok"]
+        if bad:
+            ctx.violation("a threshold-weighted ensemble CRPS with an infinite threshold fails", {"fn": "tw[inf-threshold]", "members": cases[0][0], "obs": cases[0][1],
+                                                                                                 "method": meth, "threshold": ts[0], "thresholds": "array" if arr else "scalar"},
+                          "values", {k: r[k][1] for k in bad})
+            continue
+        v = {k: x[1].transpose("component", "case").values for k, x in r.items()}
+        for a, b in (("interval(-inf,+inf)", "plain"), ("upper(-inf)", "plain"), ("lower(+inf)", "plain"), ("interval(-inf,t)", "lower(t)"), ("interval(t,+inf)", "upper(t)")):
+            ok = same(v[a], v[b]).all(axis=0)
+            for i, (xs, y) in enumerate(cases):
+                ctx.case((tag, meth, a, tuple(map(str, xs)), str(y), str(ts[i] if arr else ts[0]), arr), nontrivial=bool(np.isfinite(v[b][0, i])))
+                if not ok[i]:
+                    ctx.violation("an infinite threshold is not the end of the real line: %s != %s" % (a, b),
+                                  {"fn": "tw[inf-threshold]", "members": xs, "obs": y, "method": meth, "threshold": ts[i] if arr else ts[0],
+                                   "thresholds": "array" if arr else "scalar"}, v[b][:, i].tolist(), v[a][:, i].tolist())
+    ctx.count("inf-thresholds", n)
+
+
+def inf_level(ctx):
+    rng = ctx.rng
+    sw = inf_sweep_cases(3)
+    sw.sort(key=lambda c: -sum(1 for x in c[0] if not isnan(x) and not isinf(x)))      # mixed finite / infinite ensembles first (stable)
+    for i in range(0, len(sw), 150):
+        inf_brier_level(ctx, sw[i:i + 150], "inf-sweep-brier")
+        inf_crps_level(ctx, sw[i:i + 150], "inf-sweep-crps")
+    nr = ctx.n(240, 6000)
+    rc = [rand_inf_case(rng) for _ in range(nr)]
+    for i in range(0, nr, 40):
+        if not ctx.time_left():
+            break
+        inf_brier_level(ctx, rc[i:i + 40], "inf-brier", inf_thresholds=rng.random() < 0.5)
+        inf_crps_level(ctx, rc[i:i + 40], "inf-crps")
+        inf_threshold_level(ctx, rc[i:i + 20] + [rand_case(rng) for _ in range(20)], "inf-thresholds")
+
 
 
 def invariance_level(ctx, cases, tag):
@@ -716,6 +1113,9 @@ def gen_full(ctx):
     odims = [d for d in data if rng.random() < 0.75]
     bad = rng.random() < 0.12
     vals = [float(v) for v in rng.sample(GRID, rng.randint(2, 6))]
+    if rng.random() < 0.1:
+        # infinite members / observations are valid data (the model computes with them as IEEE does)
+        vals += rng.choice([[INF], [-INF], [INF, -INF], [INF, INF]])
     fcst = gens.rand_da(rng, sizes, dims=fdims, values=vals, nan_p=rng.choice([0.0, 0.0, 0.15, 0.5]))
     if bad and rng.random() < 0.2:
         odims = odims + [ens]
@@ -788,8 +1188,9 @@ def thr(t):
     return t if isinstance(t, xr.DataArray) else float(t)
 
 
-def call_full(c):
+def call_full(c, fcst=None, obs=None):
     p = P()
+    c = dict(c, fcst=c["fcst"] if fcst is None else fcst, obs=c["obs"] if obs is None else obs)
     kw = dict(method=c["method"], include_components=c["comps"])
     if c["rd"] is not None:
         kw["reduce_dims"] = c["rd"]
@@ -889,6 +1290,8 @@ def check_full(ctx, c, first=False):
     ctx.count("full:spelling=" + ("none" if c["rd"] is None and c["pd"] is None else type(c["rd"] if c["rd"] is not None else c["pd"]).__name__))
     if first:
         ctx.sample(desc)
+    if np.isinf(c["fcst"].values).any() or np.isinf(c["obs"].values).any():
+        ctx.count("full:infinite-values")
     if c["mode"].get("kwargs"):
         ctx.count("full:chain-kwargs")
     if not ok:
@@ -912,6 +1315,8 @@ def additivity_full(ctx, n):
         c = gen_full(ctx)
         if c["method"] not in ("ecdf", "fair") or c["ens"] in c["obs"].dims or (c["w"] is not None and c["ens"] in c["w"].dims):
             continue
+        if np.isinf(c["fcst"].values).any() or np.isinf(c["obs"].values).any():
+            continue      # inf - inf: the NaN positions of the three parts differ (per-case statements with infinite values: inf_crps_level)
         data = [d for d in c["fcst"].dims if d != c["ens"]]
         sizes = dict(c["fcst"].sizes)
         lo = rand_threshold(rng, sizes, data, top=False)
@@ -1045,6 +1450,176 @@ def reduction_level(ctx, n):
                           np.asarray(sort_labels(want).values).tolist(), np.asarray(g.values).tolist())
 
 
+# ---------------------------------------------------------------------------------------------------
+# Dataset inputs: several variables whose NaN positions differ; each variable must score as it does alone as a DataArray
+# ---------------------------------------------------------------------------------------------------
+DS_CLASSES = ["missing-obs", "all-nan-ensemble", "single-member", "nan-members", "complete"]
+
+
+def gen_dataset(ctx):
+    rng = ctx.rng
+    ens = rng.choice(["m", "ens"])
+    data = rng.sample(["a", "b", "c"], rng.randint(1, 2))
+    sizes = {d: rng.randint(2, 3) for d in data}
+    sizes[ens] = rng.randint(1, 5)
+    coords = {d: rng.sample(range(sizes[d]), sizes[d]) for d in sizes}      # shared by the variables, stored in shuffled order
+    names = rng.sample(["temp", "rain", "wind"], rng.choice([2, 2, 3]))
+    classes = rng.sample(DS_CLASSES, len(names))                              # distinct classes: NaN positions differ between variables
+    if not set(classes) & {"missing-obs", "all-nan-ensemble", "single-member"}:
+        classes[rng.randrange(len(classes))] = rng.choice(["missing-obs", "all-nan-ensemble", "single-member"])
+    vals = [float(v) for v in rng.sample(GRID, rng.randint(2, 6))]
+    odims = [d for d in data if rng.random() < 0.9]
+    shared_obs = rng.random() < 0.12
+    fv, ov = {}, {}
+    for v, cls in zip(names, classes):
+        fd = data + [ens]
+        rng.shuffle(fd)
+        f = np.array([rng.choice(vals) for _ in range(int(np.prod([sizes[d] for d in fd])))], dtype=float).reshape([sizes[d] for d in fd])
+        f = xr.DataArray(f, dims=fd, coords={d: coords[d] for d in fd})
+        o = np.array([rng.choice(vals) if rng.random() < 0.6 else float(rng.choice(GRID)) for _ in range(int(np.prod([sizes[d] for d in odims])) if odims else 1)],
+                     dtype=float).reshape([sizes[d] for d in odims])
+        o = xr.DataArray(o, dims=odims, coords={d: coords[d] for d in odims})
+        idx = {d: rng.randrange(sizes[d]) for d in data}
+        if cls == "missing-obs":
+            o[{d: idx[d] for d in odims}] = NAN
+            if odims and rng.random() < 0.4:
+                o[{d: rng.randrange(sizes[d]) for d in odims}] = NAN
+        elif cls == "all-nan-ensemble":
+            f[idx] = NAN
+        elif cls == "single-member":
+            keep = rng.randrange(sizes[ens])
+            for k in range(sizes[ens]):
+                if k != keep:
+                    f[dict(idx, **{ens: k})] = NAN
+        elif cls == "nan-members":
+            f = f.where(xr.DataArray(np.array([rng.random() >= 0.3 for _ in range(f.size)]).reshape(f.shape), dims=f.dims, coords=f.coords))
+        fv[v], ov[v] = f, o
+    obs = ov[names[0]] if shared_obs else ov
+    kind = rng.choice(["plain", "plain", "tail", "interval", "chain", "brier"])
+    mode = {"kind": kind}
+    if kind in ("tail", "chain"):
+        mode["tail"] = rng.choice(["upper", "lower"])
+        mode["t"] = ds_threshold(rng, sizes, coords, data)
+        if kind == "chain":
+            mode["kwargs"] = rng.random() < 0.5
+            mode["default"] = rng.choice([Fraction(-9), Fraction(9), Fraction(0)])
+    elif kind == "interval":
+        lo = ds_threshold(rng, sizes, coords, data)
+        mode["lo"] = lo
+        mode["hi"] = lo + float(rng.choice([Fraction(1, 2), Fraction(1), Fraction(5, 2)]))
+    elif kind == "brier":
+        mode["thresholds"] = sorted(rng.sample(GRID + [Fraction(k, 4) for k in (-5, -1, 1, 3, 7)], rng.randint(1, 4)))
+        mode["fair"] = rng.random() < 0.5
+        mode["op"] = rng.choice(OPS)
+    w = None
+    if rng.random() < 0.3:
+        wd = [d for d in data if rng.random() < 0.6]
+        w = xr.DataArray(np.array([float(rng.choice([Fraction(1, 2), Fraction(1), Fraction(2), Fraction(3)])) for _ in range(int(np.prod([sizes[d] for d in wd])) if wd else 1)]
+                                  ).reshape([sizes[d] for d in wd]), dims=wd, coords={d: coords[d] for d in wd})
+    rd, pd = gens.rand_dimspec(rng, data)
+    if rng.random() < 0.35:
+        rd, pd = None, "all"
+    return dict(fcst=fv, obs=obs, ens=ens, mode=mode, method=rng.choice(["ecdf", "fair"]), rd=rd, pd=pd, w=w, comps=kind != "brier" and rng.random() < 0.75,
+                classes=dict(zip(names, classes)))
+
+
+def ds_threshold(rng, sizes, coords, data):
+    if rng.random() < 0.6:
+        return rng.choice(GRID)
+    dims = [d for d in data if rng.random() < 0.6]
+    v = np.array([float(rng.choice(GRID)) for _ in range(int(np.prod([sizes[d] for d in dims])) if dims else 1)]).reshape([sizes[d] for d in dims])
+    return xr.DataArray(v, dims=dims, coords={d: coords[d] for d in dims})
+
+
+def call_ds(c, fcst, obs):
+    import operator
+    if c["mode"]["kind"] != "brier":
+        return call_full(c, fcst, obs)
+    m = c["mode"]
+    kw = dict(fair_correction=m["fair"], event_threshold_operator=getattr(operator, m["op"]))
+    if c["rd"] is not None:
+        kw["reduce_dims"] = c["rd"]
+    if c["pd"] is not None:
+        kw["preserve_dims"] = c["pd"]
+    if c["w"] is not None:
+        kw["weights"] = c["w"]
+    return core.call_impl(P().brier_score_for_ensemble, fcst, obs, c["ens"], [float(t) for t in m["thresholds"]], **kw)
+
+
+def describe_ds(c):
+    m = dict(c["mode"])
+    for k in ("t", "lo", "hi"):
+        if k in m:
+            m[k] = gens.da_repr(m[k])
+    fn = {"plain": "crps_for_ensemble", "tail": "tail_tw_crps_for_ensemble", "chain": "tw_crps_for_ensemble", "interval": "interval_tw_crps_for_ensemble",
+          "brier": "brier_score_for_ensemble"}[m["kind"]]
+    return {"fn": fn + "[dataset]", "fcst": {v: gens.da_repr(x) for v, x in c["fcst"].items()},
+            "obs": {v: gens.da_repr(x) for v, x in c["obs"].items()} if isinstance(c["obs"], dict) else gens.da_repr(c["obs"]),
+            "ensemble_member_dim": c["ens"], "mode": m, "method": c["method"], "reduce_dims": c["rd"], "preserve_dims": c["pd"], "weights": gens.da_repr(c["w"]),
+            "include_components": c["comps"], "nan_classes": c.get("classes")}
+
+
+def check_dataset(ctx, c, first=False):
+    """fcst (and obs) given as xr.Dataset: every variable of the result equals the result of the same call on that variable alone
+    (values and NaN positions; a mask built across variables would couple them), and with include_components the parts of every
+    variable add up: total = underforecast + overforecast - spread, per case (both methods) and after a NaN-skipping weighted
+    mean (ecdf, where the NaN positions of the four parts coincide)"""
+    F = xr.Dataset(c["fcst"])
+    O = xr.Dataset(c["obs"]) if isinstance(c["obs"], dict) else c["obs"]
+    desc = describe_ds(c)
+    kind = c["mode"]["kind"]
+    r = call_ds(c, F, O)
+    alone = {v: call_ds(c, F[v], O[v] if isinstance(O, xr.Dataset) else O) for v in c["fcst"]}
+    ctx.case(desc, nontrivial=r[0] == "ok")
+    ctx.count("dataset:" + kind)
+    for cls in set((c.get("classes") or {}).values()):
+        ctx.count("dataset:nan-class=" + cls)
+    if c["comps"]:
+        ctx.count("dataset:components")
+    if first:
+        ctx.sample(desc)
+    if r[0] != "ok" or any(a[0] != "ok" for a in alone.values()):
+        if r[0] != "ok" and all(a[0] != "ok" for a in alone.values()):
+            return
+        ctx.violation("a Dataset call and the calls on its variables do not fail together", desc, {v: (a[1] if a[0] != "ok" else "ok") for v, a in alone.items()},
+                      r[1] if r[0] != "ok" else "ok")
+        return
+    if not isinstance(r[1], xr.Dataset) or set(r[1].data_vars) != set(c["fcst"]):
+        ctx.violation("the result for Dataset inputs does not have the variables of the forecast", desc, sorted(c["fcst"]), str(r[1])[:200])
+        return
+    for v, a in alone.items():
+        g, e = r[1][v], a[1]
+        if set(g.dims) != set(e.dims):
+            ctx.violation("variable '%s' of the Dataset result has other dimensions than the same call on that variable alone" % v, desc, sorted(e.dims), sorted(g.dims))
+            return
+        g = sort_labels(g).transpose(*sort_labels(e).dims)
+        ev = sort_labels(e).values
+        if not same(g.values, ev).all():
+            ctx.violation("variable '%s' of a Dataset is scored differently from the same variable passed alone as a DataArray "
+                          "(the variables' NaN positions differ: %s)" % (v, c.get("classes")), desc, np.asarray(ev).tolist(), np.asarray(g.values).tolist())
+            return
+    if c["comps"]:
+        per_case = set(r[1][next(iter(c["fcst"]))].dims) >= set(F.dims) - {c["ens"]}
+        if per_case or c["method"] == "ecdf":
+            for v in c["fcst"]:
+                x = {k: r[1][v].sel(component=k).values for k in COMPONENTS}
+                tot = x["total"]
+                rec = x["underforecast_penalty"] + x["overforecast_penalty"] - x["spread"]
+                bad = ~np.isnan(tot) & ~same(rec, tot)
+                if bad.any():
+                    ctx.violation("variable '%s' of a Dataset: total != underforecast + overforecast - spread" % v, desc, np.asarray(tot).tolist(), np.asarray(rec).tolist())
+                    return
+                ctx.count("dataset:parts-add-up")
+
+
+def dataset_level(ctx, n):
+    for i in range(n):
+        if not ctx.time_left():
+            break
+        check_dataset(ctx, gen_dataset(ctx), first=i < 1)
+
+
+
 def sort_labels(x):
     if isinstance(x, xr.DataArray):
         for d in x.dims:
@@ -1056,9 +1631,11 @@ def sort_labels(x):
 def unj(v):
     """value from a replay file: fractions and nan were written as strings"""
     if isinstance(v, str):
-        return NAN if v == "nan" else Fraction(v)
+        return NAN if v == "nan" else INF if v == "inf" else -INF if v == "-inf" else Fraction(v)
     if isinstance(v, list):
         return [unj(x) for x in v]
+    if isinstance(v, float) and isinf(v):
+        return v
     if isinstance(v, float) and v == v and float(v).is_integer():
         return Fraction(int(v))
     if isinstance(v, float) and v == v:
@@ -1072,9 +1649,32 @@ def replay(ctx, obj):
     for v in items:
         case = v.get("case", {})
         fn = case.get("fn") or ""
-        if "members" in case:
+        if fn.endswith("[dataset]"):
+            mode = dict(case["mode"])
+            for k in ("t", "lo", "hi", "default"):
+                if k in mode:
+                    mode[k] = gens.da_from_repr(mode[k]) if isinstance(mode[k], dict) else unj(mode[k])
+            if "thresholds" in mode:
+                mode["thresholds"] = unj(mode["thresholds"])
+            w = case.get("weights")
+            ob = case["obs"]
+            check_dataset(ctx, dict(fcst={v: gens.da_from_repr(x) for v, x in case["fcst"].items()},
+                                    obs={v: gens.da_from_repr(x) for v, x in ob.items()} if "values" not in ob else gens.da_from_repr(ob),
+                                    ens=case["ensemble_member_dim"], mode=mode, method=case["method"], rd=case.get("reduce_dims"), pd=case.get("preserve_dims"),
+                                    w=gens.da_from_repr(w) if isinstance(w, dict) else None, comps=bool(case.get("include_components")),
+                                    classes=case.get("nan_classes")))
+        elif "members" in case:
             xs, y = unj(case["members"]), unj(case["obs"])
-            if fn.endswith("[dtype]"):
+            if fn.startswith("brier_score_for_ensemble") and fn.endswith("[inf]"):
+                fx = {"ts": [unj(case["threshold"])]} if "threshold" in case else {}
+                if "lower_threshold" in case:
+                    fx["ab"] = (unj(case["lower_threshold"]), unj(case["upper_threshold"]))
+                inf_brier_level(ctx, [(xs, y)], "replay", fixed=fx)
+            elif fn == "tw[inf-threshold]":
+                inf_threshold_level(ctx, [(xs, y)], "replay", fixed=(unj(case["threshold"]), case.get("thresholds", "scalar")))
+            elif fn.endswith("[inf]"):
+                inf_crps_level(ctx, [(xs, y)], "replay", fixed=(unj(case["lower_threshold"]), unj(case["upper_threshold"])))
+            elif fn.endswith("[dtype]"):
                 dtype_level(ctx, [(xs, y)], case["fcst_dtype"], case["obs_dtype"], "replay")
             elif fn == "tail/interval/tail":
                 tw_level(ctx, [(xs, y)], "replay", fixed=(unj(case["lower_threshold"]), unj(case["upper_threshold"]), case.get("thresholds", "scalar")))
@@ -1181,6 +1781,8 @@ def run(ctx):
         kwargs_level(ctx, chunk[:100], "chain-kwargs")
     size_level(ctx)
     storage_level(ctx)
+    inf_level(ctx)
+    dataset_level(ctx, ctx.n(150, 4000))
     tw_level(ctx, [c for c in ex if len(c[0]) >= 2][:: (7 if ctx.tier == "quick" else 1)], "tw-sweep")
     if has_model(ctx):
         full_level(ctx, ctx.n(350, 12000))
